@@ -8,20 +8,20 @@ From TD Require Import Model.C07_Heap Model.C07_Alias Spec.C07_AliasSpec Proofs.
   Proofs.C07_TreeP Proofs.C07_WfP.
 Local Open Scope list_scope.
 
-(* inplace_keeps: an operation documented as in-place (update_, copy_, set_at_, update_at_, copy_at_, td[idx] = v, masked_fill_,
+(* inplace_keeps: an operation documented as in-place (set_, update_, copy_, set_at_, update_at_, copy_at_, td[idx] = v, masked_fill_,
    fill_, zero_, apply_, underscore arithmetic, augmented assignment) allocates nothing and rebinds nothing: every node of the heap
    keeps its key -> entry bindings (same key sets, same storage ids, same index maps behind every key of every tensordict), every
-   storage keeps its size, the caller's handles are the same — only cell contents of existing storages change.
-   (set_ is stated separately below.) *)
+   storage keeps its size, the caller's handles are the same — only cell contents of existing storages change; this holds whether
+   the operation succeeds or raises. *)
 Theorem C07_inplace_keeps : forall s i,
-  classify i = CInplace -> is_setu i = false ->
+  classify i = CInplace ->
   inplace_frame (hp s) (hp (fst (step s i))) /\ regs (fst (step s i)) = regs s.
 Proof. exact step_inplace_frame. Qed.
 Print Assumptions C07_inplace_keeps.
 
 (* ... and so does any sequence of them, from any state *)
 Theorem C07_inplace_keeps_history : forall prog s,
-  forallb (fun i => match classify i with CInplace => negb (is_setu i) | _ => false end) prog = true ->
+  forallb (fun i => match classify i with CInplace => true | _ => false end) prog = true ->
   inplace_frame (hp s) (hp (run s prog)) /\ regs (run s prog) = regs s.
 Proof. exact run_inplace. Qed.
 Print Assumptions C07_inplace_keeps_history.
@@ -37,22 +37,12 @@ Theorem C07_alias_observes : forall h d vals h',
 Proof. exact write_alias. Qed.
 Print Assumptions C07_alias_observes.
 
-(* set_ : full statement "set_ never changes a key set" is false of the faithful model (finding D75: _set_tuple creates a
-   missing intermediate node and turns the write into a rebinding one) *)
-Definition C07_set_keeps_full_statement : Prop :=
-  forall s r p v, inplace_frame (hp s) (hp (fst (step s (ISetU r p v)))).
-Theorem C07_set_keeps_refuted :
-  exists s r p v, classify (ISetU r p v) = CInplace /\ snd (step s (ISetU r p v)) = Done /\
-                  hnodes (hp (fst (step s (ISetU r p v)))) <> hnodes (hp s).
-Proof. exact setu_refuted. Qed.
-Print Assumptions C07_set_keeps_refuted.
-
-(* ... and holds on the complement: whenever every intermediate node of the key exists *)
-Theorem C07_set_keeps_partial : forall s r p v n,
-  reg s r = Some (RNode n) -> parents_exist (hp s) n p = true ->
+(* set_ never changes a key set (full statement; it was refuted by a witness before the repair of D75: fixes/C07/D75.diff —
+   a missing intermediate node is now a missing key): on every state, for every key path and value *)
+Theorem C07_set_keeps : forall s r p v,
   inplace_frame (hp s) (hp (fst (step s (ISetU r p v)))) /\ regs (fst (step s (ISetU r p v))) = regs s.
-Proof. exact step_setu_partial. Qed.
-Print Assumptions C07_set_keeps_partial.
+Proof. intros. apply step_inplace_frame. reflexivity. Qed.
+Print Assumptions C07_set_keeps.
 
 (* outofplace_pure: every operation that is not documented as in-place — allocation, rebinding set/update, del, lock, every view
    operation, every copying / computing operation, contiguous — leaves every pre-existing storage untouched (the old storages are
@@ -71,7 +61,7 @@ Print Assumptions C07_outofplace_pure_history.
 Theorem C07_after_any_history : forall hist i,
   let s := run empty_st hist in
   (writes_possible i = false -> stor_ext (hp s) (hp (fst (step s i)))) /\
-  (classify i = CInplace -> is_setu i = false ->
+  (classify i = CInplace ->
    inplace_frame (hp s) (hp (fst (step s i))) /\ regs (fst (step s i)) = regs s).
 Proof. intros hist i s. split; [apply step_pure|apply step_inplace_frame]. Qed.
 Print Assumptions C07_after_any_history.
@@ -203,6 +193,8 @@ Example C07_ex_view_copy :
   resolve (hp sc) (last (regs sc) (RNode 0)) ["n"; "c"] = Some (RLeaf (mkView 3 [0; 1; 2])) /\
   List.length (hstor (hp s)) = 2.
 Proof. vm_compute. repeat split. Qed.
-Example C07_ex_set_partial_hyp :
-  let s := run empty_st ex_prog in parents_exist (hp s) 1 ["n"; "c"] = true /\ reg s 3 = Some (RNode 1).
-Proof. vm_compute. split; reflexivity. Qed.
+(* set_ below a missing node: KeyError, nothing changes (the witness of the former refutation) *)
+Example C07_ex_set_missing_node :
+  step d75_state (ISetU 1 ["x"; "q"] 0) = (d75_state, Raised EKey)
+  /\ snd (step (run empty_st ex_prog) (ISetU 3 ["n"; "c"] 1)) = Done.
+Proof. split; vm_compute; reflexivity. Qed.
